@@ -129,6 +129,16 @@ def r2(ctx):
             want = "self.request_timestamp().format(\"%Y%m%d\") (not the server time)"
         else:
             good, want = False, "a scope element (index 1-4)"
+        # the credential part is compared as it is: no trimming / case folding between credential() and the comparison
+        part_sl = s0 if i0 else s1
+        PASSIVE = r"(SigV4Authenticator::credential|str>::split|Iterator::collect|ops::Index::index|ops::Deref::deref|AsRef::as_ref|String::as_str)$"
+        active = [c for c in part_sl.callee_names() if not re.search(PASSIVE, c)]
+        if active:
+            good = False
+            want = want + "; the credential part passes through %s first" % active
+        if k in (2, 3) and [c for c in other.callee_names()]:
+            good = False
+            want = want + " untransformed (it passes through %s)" % other.callee_names()
         if k in seen:
             yield VIOL("C03-R2", "prevalidate/cmp-duplicate/part%s" % k, "credential part %s is compared twice" % k, where=b.span_of_block(bi))
         seen[k] = (bi, t)
